@@ -196,6 +196,9 @@ fn main() {
                     let upto = std::cmp::min(c.cut, bytes.len());
                     tcp::run_cut_universe(srv, &bytes[..upto], &c.chunks, 1, upto == bytes.len(), &mut out);
                     ran += 1;
+                    if tcp::TIMEOUTS.load(std::sync::atomic::Ordering::SeqCst) >= 4 {
+                        break;
+                    }
                 }
             }
             out.flush().unwrap();
@@ -335,6 +338,7 @@ fn main() {
                 "sampled" => concgen::sampled(&kind, count, &mut rng),
                 "swarms" => concgen::swarms(&kind),
                 "eviction" => concgen::eviction(&kind, count, &mut rng),
+                "clocked" => concgen::clocked(&kind),
                 _ => panic!("unknown program set"),
             };
             let mut runs = 0;
@@ -509,6 +513,12 @@ fn main() {
                 for (u, seg) in segs.iter().enumerate() {
                     tcp::run_stream_universe(srv, &s.frames, seg, u + 1, true, &mut out);
                     universes += 1;
+                    if tcp::TIMEOUTS.load(std::sync::atomic::Ordering::SeqCst) >= 4 {
+                        break;
+                    }
+                }
+                if tcp::TIMEOUTS.load(std::sync::atomic::Ordering::SeqCst) >= 4 {
+                    break;
                 }
             }
             out.flush().unwrap();
